@@ -350,3 +350,47 @@ def value_keyed_memo(run, project, rule, what):
                    f"gets the first type's result ({what})", module=m, node=fn, func=fn.name, construct=f"@{norm(d)} keyed by value")
     if not n:
         run.ob(rule, True, "no memoised function is keyed by a layout value")
+
+
+def reads_every_file(run, project, rule, what):
+    """the file reader of tpmstream.io hands out the bytes of EVERY file it is given, each to its end: in the generator(s)
+    that loop over the files no `return` lies inside a loop (it would end the whole stream at the first end-of-file or the
+    first empty read) and the loop over the files itself is never left by `break`"""
+    if not project.has_module("tpmstream.io"):
+        run.info(f"{rule}: tpmstream.io not found; the file reader is not judged")
+        return
+    mod = project.module("tpmstream.io")
+    n = 0
+    for q, fn in mod.functions().items():
+        params = {a.arg for a in fn.args.args}
+        loops = [lp for lp in walk_no_nested(fn) if isinstance(lp, ast.For) and any(isinstance(x, ast.Name) and x.id in params for x in ast.walk(lp.iter))]
+        reads = any(isinstance(c, ast.Call) and isinstance(c.func, ast.Attribute) and c.func.attr in ("read", "read1", "readinto", "readline")
+                    for c in walk_no_nested(fn))
+        if not loops or not reads:
+            continue
+        n += 1
+        for lp in loops:
+            rets = [r for r in ast.walk(lp) if isinstance(r, ast.Return)]
+            run.ob(rule, not rets, f"{q}: no return inside the loop over the files",
+                   f"`return` inside the loop over the input files of {q}: the byte stream ends at the first file's end - the remaining "
+                   f"files are never read ({what})", module=mod, node=rets[0] if rets else lp, func=q, construct=f"{q} return in file loop")
+            # a break that leaves the file loop itself (not an inner read loop)
+            def level_breaks(stmts):
+                out = []
+                for st in stmts:
+                    if isinstance(st, ast.Break):
+                        out.append(st)
+                    elif isinstance(st, (ast.For, ast.While, ast.FunctionDef, ast.AsyncFor)):
+                        out.extend(level_breaks(st.orelse) if not isinstance(st, ast.FunctionDef) else [])
+                    else:
+                        for f_ in ("body", "orelse", "finalbody"):
+                            out.extend(level_breaks(getattr(st, f_, []) or []))
+                        for h in getattr(st, "handlers", []) or []:
+                            out.extend(level_breaks(h.body))
+                return out
+            brs = level_breaks(lp.body)
+            run.ob(rule, not brs, f"{q}: the loop over the files is not left early",
+                   f"`break` leaves the loop over the input files of {q}: the remaining files are never read ({what})", module=mod,
+                   node=brs[0] if brs else lp, func=q, construct=f"{q} break in file loop")
+    if not n:
+        run.info(f"{rule}: no generator of tpmstream.io loops over its files and reads them; the file reader is not judged in this form")
